@@ -200,6 +200,13 @@ func runC02(c *Ctx) {
 		}
 		vf := verify.SNPValidateFunc(&verify.Options{SNP: &verify.SNPOptions{ExpectedLaunchVMSAs: vmsas},
 			RootsOfTrust: roots, Now: now, ExpectedUefiSha384: ed})
+		// a validator is a long-lived value: half of the time it has already validated a report carrying a LISTED
+		// measurement with this very endorsement before it sees the case's report (what it remembers from that
+		// call must not decide this one)
+		if ls := listedForGo(snp, vmsas); len(ls) > 0 && r.Bool() {
+			Guard(func() { _ = vf(&spb.Attestation{Report: snpReport(ls[r.Intn(len(ls))])}, endBytes) })
+			c.Count("closure/after-a-listed-report-on-the-same-validator")
+		}
 		var e2 error
 		pan, msg, _ = Guard(func() { e2 = vf(&spb.Attestation{Report: snpReport(cmeas)}, endBytes) })
 		op = fmt.Sprintf("c02 op=closure g=%s gd=%s ed=%s rm=%s vmsas=%d", sevLine(snp), hx(golden.Digest), hx(ed), hx(cmeas), vmsas)
